@@ -1122,7 +1122,7 @@ WITNESSES = [
     ("tsv-single-column-empty-cell", ["--otsv"], ["--itsv"], [[(b"a", b"")]]),
     ("csv-reader-crlf-in-quoted-field-to-lf", ["--ocsv"], ["--icsv"], [[(b"a", b"x\r\ny")]]),
     ("csv-ors-crlf-writer-drops-cr", ["--ocsv", "--ors", "crlf"], ["--icsv"], [[(b"a", b"x\ry")]]),
-    ("regression-of-ec53d6cbc-dkvpx-newline-in-quotes-dropped", ["-o", "dkvpx"], ["-i", "dkvpx"], [[(b"a", b"x\n\ny"), (b"b", b"\nz"), (b"c\"\n", b"\"\n\n")]]),
+    ("regression-of-567ffc2e0-dkvpx-newline-in-quotes-dropped", ["-o", "dkvpx"], ["-i", "dkvpx"], [[(b"a", b"x\n\ny"), (b"b", b"\nz"), (b"c\"\n", b"\"\n\n")]]),
     ("dkvpx-reader-crlf-in-quoted-field-to-lf", ["-o", "dkvpx"], ["-i", "dkvpx"], [[(b"a", b"x\r\ny")]]),
     ("regression-of-80287c7ad-markdown-escaped-bar-not-unescaped", ["--omd"], ["--imd"], [[(b"a", b"x|y"), (b"b", b"2\\|"), (b"c", b"|")]]),
     ("regression-of-75f65c604-markdown-dash-only-row-dropped", ["--omd"], ["--imd"], [[(b"a", b"-"), (b"b", b"")], [(b"a", b"---"), (b"b", b"--")]]),
@@ -1133,7 +1133,7 @@ WITNESSES = [
 READ_PROBES = [
     ("regression-of-ff74c4ac8-barred-implicit-header-panic", ["--ipprint", "--barred-input", "--implicit-csv-header"], b"abc\n| x | y |\n", [[(b"1", b"x"), (b"2", b"y")]]),
     ("regression-of-6be21e050-markdown-alignment-colons", ["--imd"], b"| a | b |\n| ---: | :--- |\n| 1 | x |\n", [[(b"a", b"1"), (b"b", b"x")]]),
-    ("regression-of-5d07e29dc-multi-char-irs-repeated-last-byte", ["--idkvp", "--irs", ";;"], b"a=1;;b=2;;c=3;", [[(b"a", b"1")], [(b"b", b"2")], [(b"c", b"3;")]]),
+    ("regression-of-3c48708b5-multi-char-irs-repeated-last-byte", ["--idkvp", "--irs", ";;"], b"a=1;;b=2;;c=3;", [[(b"a", b"1")], [(b"b", b"2")], [(b"c", b"3;")]]),
     ("regression-of-a96f6ff95-multi-char-irs-drops-chunk", ["--idkvp", "--irs", "usv_rs"], b"a=x\xc3\x9ey\xe2\x90\x9eb=2\xe2\x90\x9e", [[(b"a", b"x\xc3\x9ey")], [(b"b", b"2")]]),
 ]
 
